@@ -109,6 +109,12 @@ class PeerEndpoint:
                 continue
             chain = d.w.daemon.chain()
             res = None
+            if mp.kind in ('stall', 'stall_fork') and m == (VERIFY_METHODS[mp.idx % len(VERIFY_METHODS)]
+                                                            if mp.kind == 'stall' else STALL_FORK_METHODS[mp.idx % 2]):
+                # a server that accepts the connection and answers the other requests but never answers this one:
+                # the request times out on the verifying side, the handshake never completes
+                d.probe('c19.request_never_answered')
+                continue
             if mp.kind in ('rpc_error', 'proto_error') and m == VERIFY_METHODS[mp.idx % len(VERIFY_METHODS)]:
                 # a server that answers one request of the verification handshake with a JSON-RPC error, or with
                 # a response that is no valid JSON-RPC: the handshake never completes
@@ -129,7 +135,7 @@ class PeerEndpoint:
             elif m == 'blockchain.block.header':
                 h = req['params'][0]
                 hdr = chain[min(h, len(chain) - 1)].header
-                res = (hdr if mp.kind != 'wrong_header' else bytes(80)).hex()
+                res = (hdr if mp.kind not in ('wrong_header', 'slow_fork', 'stall_fork') else bytes(80)).hex()
             elif m == 'server.features':
                 res = mp.features()
             elif m == 'server.peers.subscribe':
@@ -140,14 +146,28 @@ class PeerEndpoint:
                 conn.b_write(json.dumps({'jsonrpc': '2.0', 'id': req['id'],
                                          'error': {'code': -32601, 'message': 'unknown'}}).encode() + b'\n')
                 continue
-            self.seen.add(m)
-            conn.b_write(json.dumps({'jsonrpc': '2.0', 'id': req['id'], 'result': res}).encode() + b'\n')
-            if mp.kind == 'good' and {'server.version', 'blockchain.headers.subscribe', 'blockchain.block.header',
-                                      'server.features', 'server.peers.subscribe'} <= self.seen:
-                mp.verified.append(d.w.sim.wall())
-                self.seen = set()
+            data = json.dumps({'jsonrpc': '2.0', 'id': req['id'], 'result': res}).encode() + b'\n'
+            if mp.kind in ('slow', 'slow_fork'):
+                # every reply takes 18-28 s (inside the 30 s a request may take): the exchange as a whole needs
+                # one to one and a half minutes
+                d.probe('c19.slow_reply')
+                d.w.sim.at(18.0 + (mp.idx * 7) % 11, lambda m=m, data=data: self.answered(conn, m, data))
+            else:
+                self.answered(conn, m, data)
+
+    def answered(self, conn, m, data):
+        mp = self.mp
+        if conn.b_closed:
+            return
+        self.seen.add(m)
+        conn.b_write(data)
+        if mp.kind in ('good', 'slow') and {'server.version', 'blockchain.headers.subscribe', 'blockchain.block.header',
+                                            'server.features', 'server.peers.subscribe'} <= self.seen:
+            mp.verified.append(mp.drv.w.sim.wall())
+            self.seen = set()
 
 
+STALL_FORK_METHODS = ['blockchain.block.header', 'blockchain.headers.subscribe']
 VERIFY_METHODS = ['blockchain.headers.subscribe', 'server.features', 'server.peers.subscribe', 'server.version',
                   'blockchain.block.header']
 
@@ -172,7 +192,8 @@ class PeersDriver(ClientDriver):
                                          '0.0.0.0', f'198.51.100.{1 + i}', 'fe80::1', '::1', f'fc00::{1 + i:x}']),
         }
         kinds = ['good'] * 7 + ['wrong_genesis', 'wrong_height', 'wrong_header', 'not_listed', 'garbage',
-                                'refuse', 'hang', 'bad_version', 'rpc_error', 'proto_error']
+                                'refuse', 'hang', 'bad_version', 'rpc_error', 'proto_error',
+                                'stall', 'stall', 'stall_fork', 'slow', 'slow_fork']
         n = op['n']
         for i in range(n):
             pool = rng.choice(['a', 'a', 'a', 'b', 'b', 'v6', 'priv', 'odd'])
@@ -409,7 +430,7 @@ class PeersDriver(ClientDriver):
                     for p in pm.peers:
                         if str(p.host) == host and p.bad:
                             self.violate('C19', 'marked_bad', f'advertised peer {host} is marked bad')
-                if mp.kind != 'good' and not mp.verified:
+                if mp.kind not in ('good', 'slow') and not mp.verified:
                     self.violate('C19', 'unverifiable', f'advertised peer {host} is a {mp.kind} server: it can '
                                  'never have been verified')
                 elif not any(now - STALE_SECS - 1.0 <= t for t in mp.verified):
@@ -513,7 +534,8 @@ class PeersFamily(SubsFamily):
                     plan.append(dict(op='peer_flip', i=i, at=at))
                 elif r < 0.36:
                     plan.append(dict(op='peer_turn', i=i, at=at, kind=rng.choice(
-                        ['wrong_genesis', 'wrong_height', 'wrong_header', 'not_listed', 'rpc_error', 'garbage'])))
+                        ['wrong_genesis', 'wrong_height', 'wrong_header', 'not_listed', 'rpc_error', 'garbage', 'stall',
+                         'stall_fork', 'slow_fork'])))
                 elif r < 0.5:
                     plan.append(dict(op='announce', i=i, at=at, hostile=rng.random() < 0.3))
                 elif r < 0.65:
